@@ -105,7 +105,7 @@ def c08_tasks(tier):
 
 
 prop('C08', 'Every compilable module is minified without error into a compilable module', 'other', c08_tasks,
-     ['C08/', 'C02/L2/', 'C02/L1/', 'C02/L4/', 'C03/NameAssigner', 'C03/reservation_scope', 'C03/reserve_name'], replay='props.replay_rename:replay_c08', trusted=PRINTER_TRUST,
+     ['C08/', 'C02/L2/', 'C02/L1/', 'C02/L4/', 'C02/L5/', 'C03/NameAssigner', 'C03/reservation_scope', 'C03/reserve_name'], replay='props.replay_rename:replay_c08', trusted=PRINTER_TRUST,
      explanation='Partial: exception-freedom of every printer method for a symbolic node of its class (no-exception obligations), totality '
                  'of every class/operator dispatch table of the running interpreter, and the L2 obligations that make the printed text '
                  'parse (so the internal UnstableMinification check cannot fire for the covered part); the name-assignment obligations of the '
